@@ -23,7 +23,9 @@ LEVEL = ("For generated aggregates (1-4 sites, with/without a vibrational mode) 
          "trace and populations equal to softmax(-E/kT) in their defining basis (site energies; exciton energies; "
          "site energies minus reorganisation energies) for T = 0, T -> 0+ and temperatures around the point where "
          "exp(-E/kT) underflows; a state requested inside eigenbasis_of(H) or inside an unrelated basis context and "
-         "read after all contexts are closed equals the state requested outside.")
+         "read after all contexts are closed equals the state requested outside; so does a state requested while other "
+         "energy units are current, and a state requested from an aggregate that has been used before (diagonalised, "
+         "relaxation tensors or rate matrices built from it).")
 NOTE = ("The 'thermal' condition does not fix its basis (the code says so); its Boltzmann clause is asserted for requests "
         "made outside any context (site basis). With vibrational levels only 'thermal', the weak-coupling state and "
         "get_thermal_ReducedDensityMatrix and the strong-coupling state (vibronic diagonal energies minus the site's "
@@ -35,7 +37,7 @@ ASSUMPTIONS = ["k_B of the library (0.69503476 cm^-1/K) vs CODATA: populations c
 BUDGET = {"quick": (1500, 80), "thorough": (4000, 700)}
 
 CONDS = ["thermal", "tes_weak", "tes_strong", "impulsive", "thermal_rdm"]
-CTXS = ["outside", "eigen", "other"]
+CTXS = ["outside", "eigen", "other", "units-1/cm", "units-eV"]
 
 
 @st.composite
@@ -219,6 +221,11 @@ def check_case(case, ctx):
     if where_ctx != "outside":
         def inside():
             agg = _make(qr, case)
+            if where_ctx.startswith("units-"):
+                # requested while other energy units are current: the same state
+                with qr.energy_units(where_ctx[6:]):
+                    rho = _request(qr, agg, cond, T)
+                return numpy.array(rho.data)
             if where_ctx == "eigen":
                 op = agg.get_Hamiltonian()
             else:
@@ -239,7 +246,10 @@ def check_case(case, ctx):
                 _valid(ctx, got, tag, unit_trace=(cond != "impulsive"))
                 # (at T = 0 with a degenerate lowest level "the" state is not unique: any state of the degenerate
                 # subspace is a valid answer and which one comes out depends on the basis the eigensolver picks)
-                if cond in ("tes_weak", "tes_strong") and not (T == 0.0 and lowest_degenerate):
+                if where_ctx.startswith("units-"):
+                    if not (T == 0.0 and lowest_degenerate):
+                        ctx.close("same-state-in-any-units-context", got, ref, rtol=0, atol=1e-9, where=cond, T=T)
+                elif cond in ("tes_weak", "tes_strong") and not (T == 0.0 and lowest_degenerate):
                     ctx.close("same-state-inside-and-outside", got, ref, rtol=0, atol=1e-9, where=tag, T=T)
 
 
